@@ -175,6 +175,23 @@ func directed() map[string]*History {
 			s.Spec.Ports[1].Name, s.Spec.Ports[1].Protocol = "dns-udp", apiv1.ProtocolUDP
 		}), cut)
 
+	// two entries with one port number and different names/targetPorts swap places: same (port,targetPort) set,
+	// but getServicePort returns the first entry (Lean: service_port_order_diverges)
+	dns2 := dns.DeepCopy()
+	dns2.Spec.Ports[1].TargetPort = intstr.FromInt32(9053)
+	esDNS2 := p.EndpointSlice("default", "dns", "s0", []int32{53}, "10.0.1.5")
+	esDNS2.Ports = []discoveryV1.EndpointPort{
+		{Name: ptr("dns-tcp"), Port: ptr(int32(8053)), Protocol: ptr(apiv1.ProtocolTCP)},
+		{Name: ptr("dns-udp"), Port: ptr(int32(9053)), Protocol: ptr(apiv1.ProtocolUDP)},
+	}
+	add("svc-dup-port-order-swapped", base(dns2, esDNS2,
+		p.HTTPRoute("default", "hr-dns", 8, []gatewayv1.ParentReference{p.ParentRef("", "gw0", "")}, []string{"dns.example.com"},
+			p.HTTPRule([]gatewayv1.HTTPRouteMatch{p.PathMatch("PathPrefix", "/")}, p.Backend{Ref: "dns", Port: 53, Weight: -1}))),
+		upd(dns2, "svc-port-order", func(o client.Object) {
+			s := o.(*apiv1.Service)
+			s.Spec.Ports[0], s.Spec.Ports[1] = s.Spec.Ports[1], s.Spec.Ports[0]
+		}), cut)
+
 	// --- policies with several targetRefs, upserted after the graph with their targets was built
 	routeB := p.HTTPRoute("default", "hr-b", 9, []gatewayv1.ParentReference{p.ParentRef("", "gw0", "")}, []string{"b.example.com"},
 		p.HTTPRule([]gatewayv1.HTTPRouteMatch{p.PathMatch("PathPrefix", "/b")}, p.Backend{Ref: "svc0", Port: 80, Weight: -1}))
